@@ -68,6 +68,20 @@ pub fn filter(r: &mut Rng, depth: usize) -> Value {
     }
 }
 
+/// can the JSON form express this filter (C04: the empty `$or` and tag names equal to the reserved operator keys cannot)
+pub fn json_expressible(f: &Value) -> bool {
+    let obj = match f.as_object() { Some(o) => o, None => return true };
+    let (k, x) = match obj.iter().next() { Some(p) => p, None => return true };
+    let name_ok = |v: &Value| !matches!(v.as_str().unwrap_or(""), "$and" | "$or" | "$not" | "$exist");
+    match k.as_str() {
+        "and" => x.as_array().map_or(true, |a| a.iter().all(json_expressible)),
+        "or" => x.as_array().map_or(true, |a| !a.is_empty() && a.iter().all(json_expressible)),
+        "not" => json_expressible(x),
+        "exist" => x.as_array().map_or(true, |a| a.iter().all(name_ok)),
+        _ => name_ok(&x[0]),
+    }
+}
+
 pub fn root_filter(r: &mut Rng, depth: usize) -> Value {
     match r.below(30) {
         0 => json!({"and": []}),
@@ -138,7 +152,9 @@ pub fn gen_c04(r: &mut Rng, id: u64, thorough: bool) -> Value {
     for _ in 0..nf {
         let f = root_filter(r, depth);
         let c = if r.chance(1, 2) { Value::Null } else { json!(*r.pick(&CATS[..2])) };
+        // the same filter directly and through its JSON text (to_string -> from_str) must select the same records
         ops.push(json!({"op": "count", "s": 0, "k": 2, "c": c, "f": f}));
+        if json_expressible(&f) { ops.push(json!({"op": "count", "s": 0, "k": 2, "c": c, "f": f, "fj": true})); }
         match r.below(3) {
             0 => ops.push(json!({"op": "fetch_all", "s": 0, "k": 2, "c": c, "f": f, "lim": null, "ord": true, "desc": r.chance(1, 4)})),
             1 => {
